@@ -165,10 +165,11 @@ Definition footprint_ok (excused : list string) (f : facts) : bool :=
 Definition tune_ok (f : facts) : bool :=
   forallb (fun a => mem a (f_state f) || negb (mem a (sem_reads f))) (f_tune_w f).
 
-(* reinitialize: every state/history key is re-bound by initialize, and initialize reads nothing a run
-   modifies except what reinitialize clears first *)
+(* reinitialize (every state/history key := None, then initialize): every cleared key -- with the backing attribute of
+   a state property -- is re-bound by initialize (otherwise it stays at whatever `None` turns into: the defect of
+   NUTS.max_depth), and initialize reads nothing a run modifies except what reinitialize clears first *)
 Definition reinit_ok (f : facts) : bool :=
-  subset (f_state f) (f_init_w f ++ f_state f (* backing attrs are written through their property *)) &&
+  subset (f_state f) (f_init_w f) &&
   subset (f_hist f) (f_init_w f) &&
   forallb (fun a => negb (mem a (run_writes f)) || mem a (f_state f) || mem a (f_hist f)) (f_init_r f).
 
